@@ -150,9 +150,29 @@ def check(case, ev):
     mode, w = pc.choose_mode(sy.bounds, guard)
     poly = sy.poly
 
-    rr_v = call(poly.reducable_rows, what="reducable_rows")
-    ca_v = call(poly.reducable_columns_approx, what="reducable_columns_approx")
-    fr_v, fc_v = pc.bounded(poly.reducable_rows_and_columns, what="reducable_rows_and_columns")
+    # the three reports are asked from ONE object in an order derived from the case, then once more: the answers must not
+    # depend on what was asked before, and the matrix must be untouched
+    import itertools as _it
+    import numpy as _np
+    from vf.core import digest as _digest
+    asks = {
+        "rr": lambda: call(poly.reducable_rows, what="reducable_rows"),
+        "ca": lambda: call(poly.reducable_columns_approx, what="reducable_columns_approx"),
+        "fx": lambda: pc.bounded(poly.reducable_rows_and_columns, what="reducable_rows_and_columns"),
+    }
+    order = list(_it.permutations(sorted(asks)))[int(_digest(case), 16) % 6]
+    first = {k: asks[k]() for k in order}
+    second = {k: asks[k]() for k in reversed(order)}
+
+    def _canon(v):
+        return [_canon(x) for x in v] if isinstance(v, (tuple, list)) else [None if (isinstance(x, float) and x != x) else x for x in _np.asarray(v, dtype=float).ravel().tolist()]
+    for k in order:
+        if _canon(first[k]) != _canon(second[k]):
+            raise Violation(f"{k} reports differently when asked again on the same polyhedron (order {order}); rows={sy.rows} bounds={sy.bounds}")
+    now = [(int(b_), [int(x) for x in a_]) for b_, a_ in pc.plain_rows(poly)]
+    if now != [(int(b_), [int(x) for x in a_]) for b_, a_ in sy.rows]:
+        raise Violation(f"the polyhedron's matrix changed while it was queried: {now} vs rows {sy.rows}")
+    rr_v, ca_v, (fr_v, fc_v) = first["rr"], first["ca"], first["fx"]
     rr = [bool(x) for x in pc.as_list(rr_v, "reducable_rows()", (sy.nrows,))]
     ca = pc.forced_list(pc.as_list(ca_v, "reducable_columns_approx()", (sy.ncols,)))
     fr = [bool(x) for x in pc.as_list(fr_v, "reducable_rows_and_columns()[0]", (sy.nrows,))]
